@@ -15,6 +15,109 @@ I_KAR, E_KAR, OI_KAR, AA_KAR, O_KAR, OU_KAR, LENGTH_MARK, HASANTA = "ি", "ে"
 STATE_OF = {I_KAR: "I", E_KAR: "E", OI_KAR: "OI"}
 
 
+SIGN_OF = {"I": I_KAR, "E": E_KAR, "OI": OI_KAR}
+VOWEL_OF = {k: chr(ord(v) - 0x38) for k, v in SIGN_OF.items()}
+
+
+class Infeasible(Exception):
+    pass
+
+
+def _pending_state(v, variants):
+    """The pending state a path has matched on (from its pending_variant atom)."""
+    for a, val in v.s.atoms:
+        if a[0] == "pending_variant":
+            if val == "otherwise":
+                rest = [variants[i] for i in range(len(variants)) if i not in a[1]]
+                if len(rest) == 1:
+                    return rest[0]
+                raise c12.Undecided("which pending sign is waiting")
+            if len(val) == 1 and val[0] < len(variants):
+                return variants[val[0]]
+    raise c12.Undecided("which pending sign is waiting (no match on the pending state)")
+
+
+def _switch_state(v, kind, what):
+    """State captured by a match on a character (kind = char_switch / popped_switch): the arm taken decides the state."""
+    for a, val in v.s.atoms:
+        if a[0] == kind:
+            if val == "otherwise":
+                missing = [c for c in STATE_OF if ord(c) not in a[1]]
+                if missing:
+                    raise c12.Mismatch("the %s match has no arm for %s: that sign is dropped instead of kept waiting" % (what, " ".join("U+%04X" % ord(m) for m in missing)))
+                raise Infeasible()          # the character is one of ি ে ৈ here, and all three have arms
+            sts = {STATE_OF.get(chr(c)) for c in val}
+            if len(sts) != 1 or None in sts:
+                raise c12.Mismatch("the %s match maps %s to one arm" % (what, [hex(c) for c in val]))
+            return sts.pop()
+    raise c12.Undecided("which sign is captured (no match on the %s)" % what)
+
+
+def expected_on(v, variants):
+    """Independent transcription of the rule list with the old vowel-sign order option ON (typewriter order: ি ে ৈ are typed before
+    their consonant).  Mirrors the priority order of the documentation; where no old-order rule applies it falls through to the rules of C12."""
+    need, t_and, t_or, t_not = c12.need, c12.t_and, c12.t_or, c12.t_not
+    lsk_rmc = lambda: v.T("rmc_pred", "is_left_standing_kar")
+    if need(v.T("value_is", kvp.ZOFOLA), "whether the value is zo-fola"):
+        c = need(t_and(v.rmc_is(c12.R_), t_not(v.T("second_last_eq", HASANTA))), "bare র before zo-fola")
+        pre = [("push", c12.ZWJ)] if c else []
+        if need(lsk_rmc(), "whether the text ends in a left-standing sign (zo-fola slips under it)"):
+            if v.T("popped_some") is False:
+                raise Infeasible()
+            return pre + [("pop",), ("push_str", "<value>"), ("push", "<popped>")]
+        return pre + [("push_str", "<value>")]
+    if need(t_and(v.T("value_is", kvp.REPH), v.cfg("get_fixed_old_reph")), "reph key ∧ old-reph option"):
+        return [("call", "<reph>")]
+    if need(v.T("char_some"), "whether the value has a first character"):
+        if need(v.T("char_pred", "is_kar"), "whether the key is a vowel sign"):
+            if need(t_and(t_not(v.rmc_is(HASANTA)), v.T("char_pred", "is_left_standing_kar")), "a left-standing sign typed (not after a hasanta): it waits"):
+                return [("pending", _switch_state(v, "char_switch", "typed sign"))]
+            if need(t_and(v.rmc_is(E_KAR), t_or(v.char_is(AA_KAR), v.char_is(OU_KAR))), "ে followed by া / ৌ (two-part sign)"):
+                if v.char_is(AA_KAR) is True:
+                    return [("pop",), ("push", O_KAR)]
+                if v.char_is(OU_KAR) is True:
+                    return [("pop",), ("push", OU_KAR)]
+                raise Infeasible()
+            if need(v.T("pending_some"), "whether a sign is waiting"):
+                if need(v.rmc_is(HASANTA), "whether the text ends in a hasanta (the waiting sign joins the conjunct)"):
+                    st = _pending_state(v, variants)
+                    # the sign is put under the hasanta; the typed sign is then handled by the ordinary rules (the text ends in the hasanta again)
+                    return [("pop",), ("push", SIGN_OF[st]), ("pending", None), ("push", HASANTA)] + c12.kar_rules(v)
+                marks, lit = v.rmc_in_marks()
+                av = need(t_and(v.cfg("get_fixed_automatic_vowel"), t_or(v.T("buf_empty"), v.T("rmc_pred", "is_vowel"), marks)),
+                          "automatic vowel forming for the waiting sign")
+                return ([("push", VOWEL_OF[_pending_state(v, variants)])] if av else []) + [("pending", None), ("recurse",)]
+            return c12.kar_rules(v)
+        if need(t_and(v.char_is(HASANTA), v.rmc_is(HASANTA)), "second hasanta"):
+            return [("push", c12.ZWNJ)]
+        if need(t_and(v.char_is(LENGTH_MARK), v.rmc_is(HASANTA)), "AU length mark after hasanta"):
+            return [("pop",), ("push", c12.OU)]
+        if need(t_and(v.char_is(HASANTA), lsk_rmc()), "a hasanta / fola value after a left-standing sign (it slips under the sign)"):
+            single = need(v.T("value_count_eq", 1), "whether the value is a lone hasanta")
+            if single:
+                if v.T("popped_some") is False:
+                    raise Infeasible()
+                return [("pop",), ("pending", _switch_state(v, "popped_switch", "popped sign")), ("push", "<character>")]
+            if v.T("popped_some") is False:
+                raise Infeasible()
+            return [("pop",), ("push_str", "<value>"), ("push", "<popped>")]
+        if need(t_and(v.rmc_is(E_KAR), v.char_is(LENGTH_MARK)), "ে followed by the AU length mark"):
+            return [("pop",), ("push", OU_KAR)]
+    if need(v.T("pending_some"), "whether a sign is waiting (it is re-attached after the value)"):
+        ends_h = None
+        some = v.T("value_last_some")
+        if some is False:
+            ends_h = False
+        for a, val in v.s.atoms:
+            if a[0] == "value_last_switch":
+                ends_h = (ord(HASANTA) in val) if val != "otherwise" else (False if ord(HASANTA) in a[1] else None)
+        if need(ends_h, "whether the value ends in a hasanta (then the sign keeps waiting for the next consonant)"):
+            return [("push_str", "<value>")]
+        st = _pending_state(v, variants)
+        return [("push_str", "<value>"), ("push", SIGN_OF[st]), ("pending", None)]
+    return [("push_str", "<value>")]
+
+
 def run(ctx):
     prog, chk = ctx.prog, ctx.check
     chk.explanation = (
@@ -210,6 +313,51 @@ def run(ctx):
     elif n_rec == 0:
         r6.ok("recurse", "no re-dispatch")
     r6.floor(1, "recurse")
+
+    # ---------------- R7 the whole old-order rule list, path by path
+    r7 = chk.rule("C14.R7", "every path of the key-value processor that takes the old vowel-sign order option has exactly the effects of the old-order rule list",
+                  "a left-standing sign typed before its consonant or conjunct lands after it; hasanta / fola values slip under a sign already placed; otherwise as plain typing")
+    n7 = 0
+    seen7 = set()
+    for s in on:
+        if s.unknown:
+            d, vals, bb = s.unknown[0]
+            key = "unknown-condition@bb%d" % bb
+            if key not in seen7:
+                seen7.add(key)
+                r7.undecidable(key, "with the option on the processor branches on %r, which is not in the recognised predicate vocabulary" % (d,), site_of(b, bb))
+            continue
+        v = c12.View(s)
+        effects = [("call", "<reph>") if (e[0] == "call" and e[1] == reph_fn) else e for e in s.effects]
+        try:
+            want = expected_on(v, variants)
+            verdict = None if want == effects else ("effects", want)
+        except Infeasible:
+            continue
+        except c12.Undecided as e:
+            verdict = ("undecided", str(e))
+        except c12.Mismatch as e:
+            verdict = ("table", str(e))
+        n7 += 1
+        if verdict is None:
+            continue
+        sig = c12._signature(s)
+        key = "%s|%s" % (verdict[0], sig)
+        if key in seen7:
+            continue
+        seen7.add(key)
+        last_bb = [bb for (bb, vals) in s.path if b.blocks[bb]["term"]["k"] in ("call", "switch")][-1]
+        if verdict[0] == "effects":
+            r7.violation("path:" + sig[:160], "with the option on, under [%s] the processor does %s; the old-order rules prescribe %s" % (sig, c12._fmt(effects), c12._fmt(verdict[1])),
+                         site_of(b, c12._first_effect_bb(b, s) or last_bb))
+        elif verdict[0] == "table":
+            r7.violation("table:" + sig[:160], verdict[1], site_of(b, last_bb))
+        else:
+            r7.violation("undecided:" + sig[:160], "an option-on path with effects %s never tests %s (conditions: %s)" % (c12._fmt(effects), verdict[1], sig), site_of(b, last_bb))
+    r7.table("paths_checked", n7)
+    if n7 and not r7.instances:
+        r7.ok("all-paths", "%d option-on paths agree with the old-order rule list" % n7)
+    r7.floor(1, "all-paths")
 
     # ---------------- R3 not shown / session / one back-space
     r3 = chk.rule("C14.R3", "the pending sign is never rendered, counts as session, and is discarded by one back-space without a pop",
